@@ -1,5 +1,8 @@
 import SFV.Lemmas.CombDotSpec
 import SFV.Lemmas.CombCartMain
+import SFV.Lemmas.CombNested
+import SFV.Lemmas.CombNestedCart
+import SFV.Lemmas.CombNestedDot
 /-! # C02 — combinators emit exactly the right combinations, whatever the arrival order
 
 Property theorems only. The statements are about the LOOP-FAITHFUL executable model of
@@ -19,8 +22,11 @@ from `/repo` on every run. Helper lemmas: `SFV/Lemmas/Comb*.lean`.
   ports `0 … P-1`, of the received tokens with that key (`cartConfigs` = `itertools.product`), every member retagged
   `own tag[:-1] ++ [last component of every member]`. `WFCart depth P L S`: `depth ≥ 1`, `P ≥ 1`, no repeated
   event, ports below `P`, all tags of the same length `L`, per port distinct tags.
-* Nested combinators (outer dot product over an inner dot/cartesian product) are modelled (`runNested`) and
-  checked by correspondence and monitor only — no theorem yet (`nested_any_order` of DESIGN §4 is NOT proved). -/
+* Nested combinators (`runNested`: outer dot product over ports and flat inner dot/cartesian products): the two
+  trees the CWL translator builds are proved by composition (`nested_cart_any_order`, `nested_dot_any_order`,
+  emitted schemas related to the specification up to the order of their entries, `EmRel`); for arbitrary items
+  only the OUTER level is proved (`nested_any_order_partial`) — the rest of DESIGN §4's `nested_any_order`
+  (inner cartesian depth ≥ 2, several inner combinators) is checked by correspondence and monitor only. -/
 namespace SFV.C02
 open SFV SFV.Comb
 
@@ -43,6 +49,12 @@ theorem dot_spec_member_unique (P : Nat) (S : List Ev) (hwf : WFDot P S) (κ : T
   · exact hwf.2.2.2 e he e' he' hq hp
   · exact (hwf.2.2.2 e' he' e he hq.symm hp).symm
 
+/-- the specification's "every port has a received token with a prefix tag" is, on well-formed streams, the
+    property's "every port has exactly one such token" -/
+theorem dot_spec_exactly_one (P : Nat) (S : List Ev) (hwf : WFDot P S) (κ : Tag) :
+    specComplete P S κ = specCompleteOne P S κ :=
+  specComplete_eq_one hwf κ
+
 /-- non-vacuity: the 3-port broadcast example (tags `0`, `0.1`, `0.1.0`) is well formed, its specification is
     the single combination tagged `0.1.0`, and the model emits it -/
 example : WFDot 3 [(0, ⟨[0], 100⟩), (1, ⟨[0, 1], 200⟩), (2, ⟨[0, 1, 0], 300⟩)] := by
@@ -62,6 +74,17 @@ example : WFDot 2 [(0, ⟨[0], 1⟩), (1, ⟨[0, 10], 2⟩), (1, ⟨[0, 9], 3⟩
 theorem dot_counterexample :
     (runDot 2 [(0, ⟨[0], 100⟩), (1, ⟨[0], 7⟩), (0, ⟨[0, 0], 5⟩)]).out.length = 1 ∧
     (runDot 2 [(0, ⟨[0], 100⟩), (0, ⟨[0, 0], 5⟩), (1, ⟨[0], 7⟩)]).out.length = 2 := by
+  decide +kernel
+
+/-- **Negative witness (exception).** Without the antichain condition `_product` can reach `num_items ≥ 2`;
+    its loop variable `tag` is re-assigned inside the inner loop, the second iteration pops from another cell
+    and `pop()` raises `IndexError` — after five emissions on this 3-port stream without duplicate tags.
+    Reproduces on the real class (known finding). -/
+theorem dot_index_error_witness :
+    (runDot 3 [(0, ⟨[0, 0, 0, 0], 0⟩), (2, ⟨[0], 1⟩), (0, ⟨[0, 0, 0], 2⟩), (1, ⟨[0], 3⟩), (0, ⟨[0, 0], 4⟩),
+      (1, ⟨[0, 0], 5⟩), (2, ⟨[0, 0, 0, 0], 6⟩)]).err = some Err.indexError ∧
+    (runDot 3 [(0, ⟨[0, 0, 0, 0], 0⟩), (2, ⟨[0], 1⟩), (0, ⟨[0, 0, 0], 2⟩), (1, ⟨[0], 3⟩), (0, ⟨[0, 0], 4⟩),
+      (1, ⟨[0, 0], 5⟩), (2, ⟨[0, 0, 0, 0], 6⟩)]).out.length = 5 := by
   decide +kernel
 
 /-- the full-strength statement (every stream with distinct events, without the prefix-antichain condition) is
@@ -120,5 +143,95 @@ theorem cart_any_order_full_false :
   have hl := this.length_eq
   rw [cart_counterexample.1, cart_counterexample.2] at hl
   exact absurd hl (by decide)
+
+/-- **Nested combinators, outer level (PARTIAL).** `runNested items es` is an outer dot product whose items are
+    ports or flat inner combinators. `derived items es []` is the stream of elements the outer combinator is
+    fed along the arrival sequence (tokens of plain ports; the schemas the inner combinators yield, filed under
+    `get_tag` of their tokens). If that stream is — up to order — a well-formed stream `D` of admissible
+    elements (items in range, per item a prefix antichain of rooted tags, every token of an element carrying
+    the element's tag), then the nested combinator emits, schema by schema up to the order of the entries,
+    exactly one combination `(κ, element of every item with an ancestor tag)` per complete tag `κ` of `D`.
+
+    What is MISSING for the full `nested_any_order`: (1) that the derived stream of a well-formed nested input
+    is well-formed and, up to the order of the entries inside the inner schemas, the same multiset for every
+    arrival order (follows informally from `dot_any_order` / `cart_any_order` for the inner combinator, needs a
+    parametricity lemma of the closed form); (2) absence of exceptions for the nested run (inner: by the flat
+    theorems; outer: `dotElems_any_order`). Both are covered by the correspondence check and the monitor only. -/
+theorem nested_any_order_partial (items : List Item) (es : List Ev) (D : List CF.Ev)
+    (hD : (derived items es []).Perm D) (hwf : CF.WF items.length D) (hok : ∀ x ∈ D, ElemOK x.2) :
+    ∃ N, EmRel (runNested items es).out N ∧ N.Perm (specE items.length D) := by
+  rw [runNested_out]
+  exact (dotElems_any_order D _ hwf hok hD).2
+
+/-- non-vacuity: `dot[cart₁[p0, p1], p2]` with two tokens on p0 and p1 and the broadcast token `0` on p2: the derived
+    stream (four inner schemas tagged `0.i.j`, one token) is well formed and admissible, four combinations are
+    specified and the model emits four schemas -/
+example :
+    let items := [Item.sub (.cart 1) [0, 1], Item.port 2]
+    let es : List Ev := [(0, ⟨[0, 0], 1⟩), (0, ⟨[0, 1], 2⟩), (1, ⟨[0, 0], 3⟩), (1, ⟨[0, 1], 4⟩), (2, ⟨[0], 5⟩)]
+    CF.WF items.length (derived items es []) ∧ (∀ x ∈ derived items es [], ElemOK x.2) ∧
+    (specE items.length (derived items es [])).length = 4 ∧ (runNested items es).out.length = 4 := by
+  unfold CF.WF ElemOK
+  decide +kernel
+
+/-- **Nested `dot[cart₁[p0 … p(Pi-1)], plain ports]`, any arrival order** (the tree the CWL translator builds for a
+    cross-product scatter plus non-scattered inputs). `WFNest Pi L plains S`: the tokens of the inner ports form a
+    well-formed stream of the depth-1 cartesian product (`WFCart 1 Pi L`), all tags are rooted at `0`, no repeated
+    event, the other tokens arrive on the listed plain ports, on every plain port no tag is a prefix of another.
+    `derivedSpec Pi plains S` — a function of the stream only — lists the elements the outer dot product combines:
+    the specified schemas of the inner cartesian product (`specCart`) and the tokens of the plain ports. For every
+    arrival order the emitted schemas are, each up to the order of its entries, exactly one combination per
+    complete tag of `derivedSpec` (`specE`): the composition of the two rules, the same multiset for every order.
+    NOT covered: an inner dot product, an inner cartesian product of depth ≥ 2, and the absence of an exception
+    AFTER the last specified emission (`EmRel` forces all specified schemas to be emitted). -/
+theorem nested_cart_any_order (Pi L : Nat) (plains : List Nat) (S es : List Ev) (hwf : WFNest Pi L plains S)
+    (hperm : es.Perm S) :
+    ∃ N, EmRel (runNested (nestItems Pi plains) es).out N ∧
+      N.Perm (specE (plains.length + 1) (derivedSpec Pi plains S)) :=
+  Comb.nested_cart_any_order S es hwf hperm
+
+/-- non-vacuity: two inner ports with two tokens each, the broadcast token `0` on plain port 2 -/
+example : WFNest 2 2 [2] [(0, ⟨[0, 0], 1⟩), (0, ⟨[0, 1], 2⟩), (1, ⟨[0, 0], 3⟩), (1, ⟨[0, 1], 4⟩), (2, ⟨[0], 5⟩)] := by
+  constructor
+  · unfold WFCart; decide
+  · unfold Rooted; decide
+  · decide
+  · decide
+  · decide
+  · decide
+example : (specE 2 (derivedSpec 2 [2]
+    [(0, ⟨[0, 0], 1⟩), (0, ⟨[0, 1], 2⟩), (1, ⟨[0, 0], 3⟩), (1, ⟨[0, 1], 4⟩), (2, ⟨[0], 5⟩)])).map (·.1) =
+    [[0, 0, 0], [0, 0, 1], [0, 1, 0], [0, 1, 1]] := by decide +kernel
+
+/-- **Nested `dot[dot[p0 … p(Pi-1)], plain ports]`, any arrival order** (the tree the CWL translator builds for a
+    dot-product scatter plus non-scattered inputs). `WFNestD Pi M plains S`: `Pi ≥ 1`, ports below `M`, the tokens of
+    the inner ports form a well-formed stream of the dot product (`WFDot Pi`), all tags rooted at `0`, no repeated
+    event, the other tokens arrive on the listed plain ports, on every plain port no tag is a prefix of another.
+    `derivedSpecD Pi plains S` — a function of the stream only — lists the elements the outer dot product should
+    combine: the specified emissions of the inner dot product (entries in port order) and the plain tokens. For
+    every arrival order there is a stream `D` of elements (what the outer combinator is actually fed: the inner
+    schemas come in dict order) which, after sorting the entries of every element by port (`canonEv M`), is a
+    permutation of `derivedSpecD`, and the emitted schemas are, each up to the order of its entries, exactly one
+    combination per complete tag of `D` (`specE`). NOT covered: exceptions after the last specified emission. -/
+theorem nested_dot_any_order (Pi M : Nat) (plains : List Nat) (S es : List Ev) (hwf : WFNestD Pi M plains S)
+    (hperm : es.Perm S) :
+    ∃ D N, (D.map (canonEv M)).Perm (derivedSpecD Pi plains S) ∧
+      EmRel (runNested (nestItemsD Pi plains) es).out N ∧ N.Perm (specE (plains.length + 1) D) :=
+  Comb.nested_dot_any_order S es hwf hperm
+
+/-- non-vacuity: inner dot product over ports 0, 1 (tags `0.0`, `0.1` on both), the broadcast token `0` on plain port 2 -/
+example : WFNestD 2 3 [2] [(0, ⟨[0, 0], 1⟩), (0, ⟨[0, 1], 2⟩), (1, ⟨[0, 0], 3⟩), (1, ⟨[0, 1], 4⟩), (2, ⟨[0], 5⟩)] := by
+  constructor
+  · decide
+  · decide
+  · unfold WFDot Rooted; decide
+  · unfold Rooted; decide
+  · decide
+  · decide
+  · decide
+  · decide
+example : (specE 2 (derivedSpecD 2 [2]
+    [(0, ⟨[0, 0], 1⟩), (0, ⟨[0, 1], 2⟩), (1, ⟨[0, 0], 3⟩), (1, ⟨[0, 1], 4⟩), (2, ⟨[0], 5⟩)])).map (·.1) =
+    [[0, 0], [0, 1]] := by decide +kernel
 
 end SFV.C02
